@@ -173,7 +173,7 @@ case("C01", "C01-m-seekdigester", "mutant", "Seek keeps the old digester",
      expect=[("C01.R4", "Seek", "digester")])
 case("C01", "C01-m-limit", "mutant", "LimitRead returns the underlying error when the limit is exceeded after the read",
      edits=[("internal/limitread/limitread.go", "\tlr.Limit -= int64(n)\n\tif lr.Limit < 0 {\n\t\treturn n, fmt.Errorf(\"read limit exceeded%.0w\", errs.ErrSizeLimitExceeded)\n\t}\n", "\tlr.Limit -= int64(n)\n\tif lr.Limit < 0 {\n\t\treturn n, err\n\t}\n")],
-     expect=[("C01.R3", "Read", "limit exceeded")])
+     expect=[("C01.R3", "Read", "limit")])
 case("C01", "C01-m-getdata", "mutant", "GetData skips the digest comparison",
      edits=[("types/descriptor/descriptor.go", "\tif d.Digest != d.DigestAlgo().FromBytes(d.Data) {\n\t\treturn nil, errs.ErrParsingFailed\n\t}\n", "")],
      expect=[("C01.R5", "GetData", "digest compared")])
